@@ -25,8 +25,14 @@ pub const CHECKS: &[CheckDef] = &[
     CheckDef { id: "C07", level: "exploration", rules: &["C07.", "CRASH."], quick_runs: 3000, thorough_runs: 100_000, nontrivial_rule: "a mailbox was full when a request or a fan-out post was sent (probe mailbox_full_at_send / post_blocked_on_full_mailbox)" },
     CheckDef { id: "C08", level: "exploration", rules: &["C08.", "CRASH."], quick_runs: 6000, thorough_runs: 200_000, nontrivial_rule: ">=1 pair of overlapping Publish calls on one topic and >=2 subscriptions on a topic" },
     CheckDef { id: "C09", level: "exploration", rules: &["C09.", "CRASH."], quick_runs: 5000, thorough_runs: 150_000, nontrivial_rule: ">=1 redelivery and >=1 delivery by each of >=2 delivery paths" },
+    CheckDef { id: "C10", level: "exploration", rules: &["C10.", "CRASH."], quick_runs: 6000, thorough_runs: 200_000, nontrivial_rule: ">=2 operations on one name overlapped and at least one of them was a create or a delete" },
+    CheckDef { id: "C11", level: "exploration", rules: &["C11.", "CRASH."], quick_runs: 6000, thorough_runs: 200_000, nontrivial_rule: ">=1 DeleteSubscription or DeleteTopic returned OK and a later audit listed a topic's subscriptions" },
     CheckDef { id: "C12", level: "exploration", rules: &["C12.", "CRASH."], quick_runs: 5000, thorough_runs: 150_000, nontrivial_rule: "a DeleteSubscription returned OK while >=1 stream or blocking Pull was waiting on the subscription" },
+    CheckDef { id: "C13", level: "exploration", rules: &["C13.", "CRASH."], quick_runs: 4000, thorough_runs: 100_000, nontrivial_rule: ">=1 walk of >=2 pages over a listing that had deletions before it, or a forged decodable token" },
+    CheckDef { id: "C14", level: "exploration", rules: &["C14.", "C09.fields", "CRASH."], quick_runs: 5000, thorough_runs: 150_000, nontrivial_rule: ">=1 POST was answered with a non-accepting behaviour and the same message was POSTed again" },
     CheckDef { id: "C15", level: "exploration", rules: &["C15.", "CRASH."], quick_runs: 5000, thorough_runs: 150_000, nontrivial_rule: ">=1 Pull whose max_messages was smaller than the number of available messages, or a parked Pull that was woken" },
+    CheckDef { id: "C16", level: "fault_enumeration", rules: &["C16.", "C01.lost", "C01.redelivery", "C07.", "CRASH."], quick_runs: 5000, thorough_runs: 150_000, nontrivial_rule: "the target request was actually dropped at its k-th real suspension (outcome Abandoned); distinct = distinct (request kind, k, mailbox state, schedule fingerprint)" },
+    CheckDef { id: "C17", level: "exploration", rules: &["C17.", "C01.", "C02.", "C03.", "C07.", "CRASH."], quick_runs: 5000, thorough_runs: 150_000, nontrivial_rule: ">=3 malformed requests were rejected with INVALID_ARGUMENT while valid traffic ran alongside" },
 ];
 
 pub fn find(id: &str) -> Option<&'static CheckDef> {
@@ -81,7 +87,19 @@ pub fn generate(id: &str, run_seed: u64, _thorough: bool) -> Plan {
         }
         "C08" => f_general(run_seed, &GeneralOpts { consumer_faults: false, publisher_faults: false, deletes: false, single_drain_consumer_share: 30, ..full }),
         "C09" => f_general(run_seed, &GeneralOpts { rich_payloads: true, publisher_faults: false, push: pick < 50, big_batches: false, ..full }),
+        "C10" => f_names(run_seed, 1 + pick % 4, pick < 50),
+        "C11" => {
+            if pick < 60 {
+                f_names(run_seed, pick % 3, false)
+            } else {
+                f_general(run_seed, &GeneralOpts { stalls: false, ..full }).with_tag("audit_lists")
+            }
+        }
         "C12" => f_delete(run_seed, false),
+        "C13" => f_listing(run_seed, _thorough && pick < 2),
+        "C14" => f_push(run_seed, pick < 35),
+        "C16" => f_cancel(run_seed),
+        "C17" => f_hostile(run_seed),
         "C15" => {
             if pick < 50 {
                 f_lease(run_seed, &LeaseOpts { modacks: false, limits: true })
@@ -102,9 +120,15 @@ pub fn nontrivial(id: &str, f: &Facts, probes: &std::collections::BTreeMap<Strin
         "C04" => f.redeliveries >= 1 && probe("expiry_batch_1") + probe("expiry_batch_gt1") >= 1,
         "C05" => f.modacks + f.nacks >= 1 && f.deliveries >= 1,
         "C06" => f.parked_woken >= 1 || (f.stream_items >= 1 && f.streams >= 1),
-        "C07" => probe("mailbox_full_at_send") + probe("post_blocked_on_full_mailbox") >= 1,
+        "C07" => probe("mailbox_full_at_send") + probe("post_blocked_on_full_mailbox") + probe("topic_mailbox_full_at_send") >= 1,
         "C08" => f.overlapping_publishes >= 1 && f.max_subs_per_topic >= 2,
         "C09" => f.redeliveries >= 1 && f.deliveries >= 2,
+        "C10" => f.overlapping_name_ops >= 1,
+        "C11" => (f.deletes_sub + f.deletes_topic) >= 1 && f.walks >= 1,
+        "C13" => f.pages >= 2 && f.walks >= 1,
+        "C14" => f.post_failures >= 1 && f.posts >= 2,
+        "C16" => f.abandoned >= 1,
+        "C17" => f.invalid_argument >= 3,
         "C12" => f.deletes_sub >= 1 && (f.streams >= 1 || f.parked_woken >= 1 || probe("pull_parked") >= 1),
         "C15" => probe("pull_left_backlog") >= 1 || f.parked_woken >= 1,
         _ => f.calls > 0,
